@@ -14,5 +14,8 @@ for m in "$src"/SEED/mut*; do
   # the patch must apply to /repo's HEAD
   if git -C /repo apply --check "$dst/patch.diff" 2>/dev/null; then echo "$id-$n applies"; else echo "$id-$n DOES NOT APPLY"; fi
 done
-[ -f "$src/SEED/SIDE_FINDINGS.md" ] && cp "$src/SEED/SIDE_FINDINGS.md" "/verif/seeded/$id-SIDE_FINDINGS.md" && echo "side findings saved"
+# usage: optional 3rd argument = round suffix (e.g. r4) so earlier rounds' notes are kept
+sfx="${3:+_$3}"
+[ -f "$src/SEED/SIDE_FINDINGS.md" ] && cp "$src/SEED/SIDE_FINDINGS.md" "/verif/seeded/$id-SIDE_FINDINGS$sfx.md" && echo "side findings saved"
+[ -d "$src/SEED/side_demo" ] && rm -rf "/verif/seeded/$id-side_demo$sfx" && cp -r "$src/SEED/side_demo" "/verif/seeded/$id-side_demo$sfx" && echo "side demos saved"
 exit 0
